@@ -64,6 +64,10 @@ def run(ctx: Ctx, rep: Report) -> None:
     from .C06 import qasm_def_cursor
     rep.floor('CURSOR', qasm_def_cursor(ctx, rep), 1,
               'formal-parameter cursor of CircuitGate.get_qasm_gate_def')
+    # frozen parameter values are merged back in index order when a gate is
+    # written (Operation.get_qasm -> FrozenParameterGate.get_full_params)
+    from ..rules.foldorder import rule_insertord
+    rule_insertord(ctx, rep, ('bqskit/ir/',), 1)
 
 
 # ---------------------------------------------------------------------------
